@@ -131,12 +131,19 @@ def fanout(text):
     return best
 
 
-def classify(text):
-    """known-finding mechanisms (known_findings.json): inputs outside what a maintainer-sized repair covers"""
+def classify(text, run=None):
+    """known-finding mechanisms (known_findings.json): inputs outside what a maintainer-sized repair covers.  The input must
+    have the shape AND, when the outcome of the run is at hand, the run must show the mechanism's signature: death by
+    SIGSEGV/SIGABRT (stack overflow) for deep nesting, the CPU/address-space limit for the exponential expansion.  Anything
+    else on such an input (a wrong status, a touched destination, a missing diagnostic) is a new violation."""
     if max_depth(text) >= 1000:
-        return 'deep_nesting_stack_overflow'
+        if run is None or run['rc'] in (134, 139, 128 + 6, 128 + 11, -6, -11):
+            return 'deep_nesting_stack_overflow'
+        return None
     if fanout(text) >= 2 ** 18:
-        return 'exponential_definition_expansion'
+        if run is None or run['timed_out'] or run['rc'] in (137, 152, 128 + 24, 128 + 9, -9, 134, 101):
+            return 'exponential_definition_expansion'
+        return None
     return None
 
 
@@ -184,7 +191,10 @@ def judge(b, shell, to_file, sentinel):
         script = b['dest'] if to_file else b['stdout']
         if not script:
             return ['exit 0 but no script written']
-        if TRAILER[shell] not in script[-400:] and TRAILER[shell] not in script:
+        # a complete script: bash/fish/zsh end with the registration; the pwsh registration opens the script block, which
+        # must be closed at the very end
+        if (TRAILER[shell] not in script) or (shell != 'pwsh' and TRAILER[shell] not in script[-300:]) \
+                or (shell == 'pwsh' and not script.rstrip().endswith(b'}')) or (shell == 'zsh' and not script.rstrip().endswith(b'fi')):
             return ['exit 0 but the script lacks its registration trailer']
         if to_file and b['stdout']:
             return ['exit 0, script to file, but stdout is not empty']
@@ -246,16 +256,17 @@ def run(ctx, res):
         key = 'rc%s' % b['rc']
         outcomes[key] = outcomes.get(key, 0) + 1
         problems = judge(b, sh, to_file, sentinel)
+        if not problems:
+            res.traces_validated += 1
         if problems:
             res.violations.append(report.Violation(
-                'C06: ' + '; '.join(problems), cls=classify(text), replay=
+                'C06: ' + '; '.join(problems), cls=classify(text, b), replay=
                 dict(kind='spec-judgement', grammar=text.decode('latin-1')[:20000], grammar_hex=text.hex() if any(c > 126 or c < 9 for c in text) else None,
                      shell=sh, build=bk, to_file=to_file, rc=b['rc'], stderr=b['stderr'][-1500:].decode('latin-1'), problems=problems)))
         if len(res.samples) < 6 and i % 997 == 3:
             res.samples.append(dict(kind=kind, grammar=text.decode('latin-1')[:300], shell=sh, build=bk, rc=b['rc'],
                                     stderr_first=b['stderr'].split(b'\n')[0].decode('latin-1')[:120]))
     res.nontrivial = len(set(t for _, t in cs))
-    res.traces_validated = res.evaluations
     end_to_end(ctx, res, cs)
     # Model/Main.v (the whole command as a trace of effects) against the binary: command lines x inputs
     maintie.tie(ctx, res, extra=[(k, t) for k, t in cs if not k.startswith('probe')])
